@@ -13,7 +13,19 @@ colour) are floating-point arithmetic and NOT decided.  Decided, from the MIR of
        whiteness / blackness 0..=1.  NaN is tracked but a NaN store is not a violation of a range;
  (iii) "two colours with the same rgba channels compare equal, whichever notation created them": the
        eq / partial_cmp / cmp bodies of the three structs read channel fields only, never the notation
-       metadata (`source`, `hsla_format`).
+       metadata (`source`, `hsla_format`);
+ (iv)  the rgb -> hsl conversion picks the right channels: `max_min_largest(a, b, c)` touches its arguments
+       only through comparisons, so it is evaluated statically for every weak ordering of three values
+       (lib/rankeval over the AST, 27 rank assignments): it must return the maximum, the minimum and the
+       index of a channel that attains the maximum — a necessary condition of "rebuilding a colour from
+       its own hsl channels gives an equal colour";
+ (v)   the Sass-level reporters of the channels whose store invariant is established (hue, red, green,
+       blue, alpha / opacity) hand a value inside the range to the number they return: the reporter is
+       interpreted by lib/interval with reads of *established* fields only (a field with an unproven
+       store is read as unbounded), and every f64 it passes to `Numeric::new` / `Value::scalar` is checked;
+ (vi)  `Color::cmp` compares two colours field by field only in a representation that is canonical (the
+       hue store of that struct is proven in [0, 360)); otherwise equal colours with different stored
+       hues would compare unequal.
 """
 import json
 import os
@@ -70,6 +82,7 @@ def run(ctx, F):
     reviewed = {r["key"]: r["reason"] for r in json.load(open(REVIEWED))["reviewed"]}
     n_stores = 0
     ords = {}
+    unproven = set()            # (struct path, field) with a store that is not proven in range
     for d in sorted(prog.bodies):
         b = prog.bodies[d]
         sites = []
@@ -113,6 +126,7 @@ def run(ctx, F):
             elif key in reviewed:
                 ctx.reviewed("F4-bounded-store", key, reviewed[key])
             else:
+                unproven.add((sp, fld))
                 ctx.fail("F4-bounded-store", key, f"the value stored in `{fld}` is only known to lie in {iv.show()}, the channel's range is {rng(r)}", where=b.where(bi))
     ctx.floor("stores to colour channel fields", n_stores, 39)
     ctx.units["interval_functions_interpreted"] = len(set(A.analysed))
@@ -143,3 +157,108 @@ def run(ctx, F):
             else:
                 ctx.fail("F8-compare-ignores-notation", key, f"`{short}::{meth}` reads the notation field(s) {sorted(read)}: two colours with the same channels created through different notations compare unequal", where=fam[0].where())
     ctx.floor("colour comparison impls inspected", n_cmp, 6)
+
+    # ---------------------------------------------------------------- (iv) ordering table of max_min_largest
+    from lib import rankeval
+    fs = [f for f in tree.fn_list if f["path"].endswith("colors::convert::max_min_largest")]
+    if len(fs) != 1:
+        ctx.anchor_lost("convert::max_min_largest", f"found {len(fs)}")
+    else:
+        import itertools
+        bad = []
+        n_ord = 0
+        try:
+            for a, b, c in itertools.product((0, 1, 2), repeat=3):
+                n_ord += 1
+                r = rankeval.run(fs[0], [a, b, c])
+                if not (isinstance(r, tuple) and len(r) == 3):
+                    raise rankeval.Unknown("result is not a triple")
+                mx, mn, li = r
+                li = li[1] if isinstance(li, tuple) and li[0] == "lit" else li
+                if mx != max(a, b, c) or mn != min(a, b, c) or li not in (0, 1, 2) or (a, b, c)[li] != max(a, b, c):
+                    bad.append(((a, b, c), r))
+        except rankeval.Unknown as e:
+            ctx.anchor_lost("convert::max_min_largest", f"not a comparison-only function any more ({e})")
+            bad = None
+        if bad is not None:
+            key = "max_min_largest returns (max, min, index of a maximal channel) for every ordering"
+            if not bad:
+                ctx.ok("F5-ordering-table", key, f"{n_ord} rank assignments")
+            else:
+                def shape(t):
+                    a, b, c = t
+                    names = sorted(zip((a, b, c), "abc"), reverse=True)
+                    out = names[0][1]
+                    for (r0, _), (r1, n1) in zip(names, names[1:]):
+                        out += (" = " if r0 == r1 else " > ") + n1
+                    return out
+                shapes = sorted({shape(t) for t, _ in bad})
+                ctx.fail("F5-ordering-table", key, f"for the orderings {shapes} max_min_largest(a, b, c) does not return the largest / smallest argument (e.g. ranks {bad[0][0]} -> {bad[0][1]}): the hsl form of such an rgb colour gets the wrong lightness", where=fs[0]["path"])
+
+    # ---------------------------------------------------------------- (v) reporters
+    from lib import sym
+    from rules.C34 import registry
+    S = sym.Sym(prog, inline_depth=0)
+    reg = registry(prog, S)
+    impl = {}
+    for (kind, mod, name), impls in reg.items():
+        if mod == "color" and kind == "module":
+            im = [i for i in impls if i]
+            if len(im) == 1:
+                impl[name] = im[0]
+
+    def established(ty, field):
+        ty2 = re.sub(r"^&(mut )?", "", ty).strip()
+        if (ty2, field) in unproven:
+            return None
+        return field_range(ty, field)
+    REPORT = {"hue": (0, 360, True), "red": (0, 255, False), "green": (0, 255, False), "blue": (0, 255, False), "alpha": (0, 1, False), "opacity": (0, 1, False)}
+    n_rep = 0
+    for name, r in sorted(REPORT.items()):
+        if name not in impl:
+            ctx.anchor_lost(f"sass:color.{name}", "no registered implementation")
+            continue
+        root = prog.bodies[impl[name]]
+        A2 = interval.Analysis(prog, field_range=established, max_depth=4)
+        seen = []
+
+        def hook(body, bi, t, ev, seen=seen, root=root):
+            if body is not root:
+                return
+            cn = mir.callee_name(t) or ""
+            if re.search(r"Numeric>::new$|css::value::Value>::scalar$|functions::color::percentage$", cn) and t["args"]:
+                seen.append((bi, ev(t["args"][0])))
+        A2.call_hook = hook
+        A2.run(root)
+        key = f"sass:color.{name} reports a value in {rng(r)}"
+        if not seen:
+            ctx.anchor_lost(key, "no number construction found in the reporter")
+            continue
+        n_rep += 1
+        bad = [(bi, iv) for bi, iv in seen if not iv.within(float(r[0]), float(r[1]), hi_open=r[2])]
+        if not bad:
+            ctx.ok("F4-reported-channel", key, "; ".join(iv.show() for _, iv in seen))
+        else:
+            ctx.fail("F4-reported-channel", key, f"color.{name} returns a number built from a value only known to lie in {bad[0][1].show()}: it reads a channel whose stores are not proven in range (or computes it unclamped)", where=root.where(bad[0][0]))
+    ctx.floor("channel reporters interpreted", n_rep, 6)
+    ctx.note("reporters of saturation, lightness, whiteness and blackness are not checked: the stores of those fields are known findings (Hsla::new, Hwba::new)")
+    # ---------------------------------------------------------------- (vi) field-wise comparison only on canonical representations
+    cmp_fam = [bb for dd, bb in prog.bodies.items() if dd.startswith("<value::colors::Color as std::cmp::Ord>::cmp") or dd.startswith("<value::colors::Color as std::cmp::PartialEq>::eq") or dd.startswith("<value::colors::Color as std::cmp::PartialOrd>::partial_cmp")]
+    if not cmp_fam:
+        ctx.anchor_lost("Color comparison impls", "not found")
+    n_fw = 0
+    for bb in cmp_fam:
+        for bi, t in bb.calls():
+            cn = mir.callee_name(t) or ""
+            m = re.match(r"^<(value::colors::\w+::(Rgba|Hsla|Hwba)) as std::cmp::(PartialOrd|Ord|PartialEq)>::(partial_cmp|cmp|eq|ne|lt|le|gt|ge)$", cn)
+            if not m:
+                continue
+            n_fw += 1
+            sp = m.group(1)
+            key = f"Color comparison|field-wise {m.group(2)} comparison needs a canonical {m.group(2)}"
+            hue_unproven = (sp, "hue") in unproven
+            if hue_unproven:
+                ctx.fail("F9-compare-canonical", key, f"{mir.short(bb.def_)} compares two {m.group(2)} values field by field, but the hue stored in a {m.group(2)} is not proven to be normalised: the same colour stored with hue h and h + 360 compares unequal", where=bb.where(bi))
+            else:
+                ctx.ok("F9-compare-canonical", key, None)
+    ctx.floor("field-wise comparisons reached from Color's comparison", n_fw, 1)
